@@ -57,6 +57,11 @@ def build_jobs(tier, seed, kf_on):
                     locf_assume.append(("nonnull", "h", part))  # recorded finding: rows whose partition key is missing are never filled (join on the key)
                 jobs.append(simple.tv_job(f"locf part={part}:{bname}@{n}", SCHEMA_LOCF, {"h": n}, mk(srcl), refl, kf_on, tier, assume=locf_assume,
                                           max_paths=4000 if tier == "quick" else 40000, wall_s=120 if tier == "quick" else 900))
+                # with TIED order keys "the last observed value" is not determined, but the helper still returns one row per input row
+                jobs.append(simple.tv_job(f"locf row count with tied order keys part={part}:{bname}@{n}", SCHEMA_LOCF, {"h": n}, mk(srcl),
+                                          {"kind": "fn", "fn": "vf.checks.c18:ref_limit_rows", "args": ["h", 10 ** 6], "label": "one row per input row"}, kf_on, tier,
+                                          compare="rowcount", allow_window_ties=True, assume=[("nonnull", "h", part)] if part else [],
+                                          max_paths=4000 if tier == "quick" else 40000, wall_s=120 if tier == "quick" else 900))
     return jobs
 
 
